@@ -35,6 +35,36 @@ def problems(wd, tier, rng):
     return items, [g3, g4]
 
 
+def rare_problems(wd):
+    """TRSO.tla GenSpec: the (graph, query, source domain) problems of the ordered 4-node ADMGs on which the reference TRSO
+    takes a further recursive step inside a source domain after a line 10 of that domain (TRSOSteps)."""
+    from common import cached, tagged_lines, tlc, tlc_ok
+
+    def go():
+        cfg = wd / "TRSOGen.cfg"
+        # (Family only feeds the machine's own Inputs, which TLC evaluates eagerly: keep it tiny here)
+        cfg.write_text('SPECIFICATION GenSpec\nCONSTANTS\n  Family = "A2"\n  RndN = 5\n  RndK = 4\n  Seeds = {1}\n  MaxDomains = 1\n'
+                       "CHECK_DEADLOCK FALSE\n")
+        r = tlc("TRSO.tla", str(cfg), workers=NCPU, meta=wd / "trsogen", xmx="6g")
+        tlc_ok(r, "TRSO GenSpec")
+        lines = tagged_lines(r["out"], "TRX")
+        lines.sort(key=lambda it: json.dumps(it["g"], sort_keys=True))
+        return {"lines": lines, "generated": r["generated"], "distinct": r["distinct"]}
+    return cached("trso-rare-A4o", go, module="TRSO")
+
+
+def rare_items(wd):
+    g = rare_problems(wd)[0]
+    items = []
+    for gi, line in enumerate(g["lines"]):
+        by_dom = {}
+        for p in line["ps"]:
+            by_dom.setdefault((tuple(sorted(p["z"])), tuple(sorted(p["w"]))), []).append([sorted(p["x"]), sorted(p["y"])])
+        for di, (dom, qs) in enumerate(sorted(by_dom.items())):
+            items.append({"g": line["g"], "gid": f"RARE-{gi}-{di}", "qs": sorted(qs), "doms": [[list(dom[0]), list(dom[1])]], "orders": 2})
+    return items, g
+
+
 def run_y0(wd, items, tag):
     shards = [items[i::NSHARDS] for i in range(NSHARDS)]
     jobs = []
